@@ -16,6 +16,10 @@
 
 #include "../SymGEigsSolver.h"
 
+#ifdef SPECTRA_VERIF
+struct SpectraVerifAccess;
+#endif
+
 namespace Spectra {
 
 ///
@@ -82,6 +86,10 @@ namespace Spectra {
 template <typename Scalar = long double>
 class LOBPCGSolver
 {
+#ifdef SPECTRA_VERIF
+    friend struct ::SpectraVerifAccess;
+#endif
+
 private:
     typedef Eigen::Matrix<Scalar, Eigen::Dynamic, Eigen::Dynamic> Matrix;
     typedef Eigen::Matrix<Scalar, Eigen::Dynamic, 1> Vector;
